@@ -257,6 +257,18 @@ func c07Ops() []histOp {
 	tuMany2.F[0] = ref.Int(ref.KI32, 77)
 	tuMany2.Unk = manyUnk2
 	ops = append(ops, decOp("TU:dec(11 unknown strings)", tu, ref.Encode(tu, tuMany2), nil))
+	// two parent types nesting ONE fixed-size struct with holder by value: what a parent's descriptor records
+	// about the child must not depend on whether a sibling parent linked the child first
+	{
+		child := universe.LeafHolder()
+		p1 := mk(fd(1, D, universe.StVal(child)))
+		p2 := mk(fd(1, D, universe.StVal(child)), fd(2, D, sc(ref.KI32)))
+		cv := ref.ZeroStruct(child)
+		cv.F[0] = ref.Int(ref.KI16, 7)
+		cv.Unk = unknownSamples[0]
+		ops = append(ops, encOps("Parent1", p1, &ref.Val{K: ref.KStruct, F: []*ref.Val{cv}})[:3]...)
+		ops = append(ops, encOps("Parent2", p2, &ref.Val{K: ref.KStruct, F: []*ref.Val{cv.Clone(), ref.Int(ref.KI32, 5)}})[:3]...)
+	}
 	// registrations that fail in different ways (each must leave no trace)
 	for _, d := range badDefs() {
 		switch d.class {
